@@ -41,7 +41,7 @@ CONSTANTS Nodes,      \* origin addresses (strings)
 
 VARIABLES node,    \* [Nodes -> [cache, meta, persist, uploads, tasks, rst]]
           fdata,   \* inode contents: [uid -> Seq(token)] (dynamic domain)
-          env,     \* [ring, up, backend, bdown, wbfail, remote, rdown, hours, lchunk]  (lchunk: chunk size, in tokens,
+          env,     \* [ring, up, backend, bdown, wbfail, remote, rhosts, hours, lchunk]  (lchunk: chunk size, in tokens,
                    \*   of the blobclient the origins use among themselves)
           reqs,    \* in-flight requests and refresh workers (set of records)
           nrid,    \* number of request ids handed out (design model only)
@@ -77,7 +77,7 @@ Idle == [s |-> "idle", age |-> 0]
 NodeInit == [cache |-> [d \in Digests |-> "none"], meta |-> [d \in Digests |-> 0], persist |-> {},
              uploads |-> {}, tasks |-> {}, rst |-> [d \in Digests |-> Idle]]
 EnvInit(ring, lchunk) == [ring |-> ring, up |-> [n \in Nodes |-> TRUE], backend |-> {}, bdown |-> FALSE, wbfail |-> {},
-                          remote |-> {}, rdown |-> FALSE, hours |-> 0, lchunk |-> lchunk]
+                          remote |-> {}, rhosts |-> <<"ok", "ok">>, hours |-> 0, lchunk |-> lchunk]
 
 \* inodes that are still reachable: upload files, cached blobs, files held open by a PATCH handler or read by a leg
 Live(nd, rq) == UNION {nd[n].uploads : n \in Nodes}
@@ -339,12 +339,20 @@ FanDone(q) ==
   /\ IF q.op = "refresh" THEN Only(q, [q EXCEPT !.pc = "end", !.legs = NoLegs]) /\ UNCHANGED acked
      ELSE Only(q, [Done(q, 200) EXCEPT !.legs = NoLegs]) /\ acked' = AckNow(q, 200)
 
-\* replicateToRemote: the blob is streamed to the remote cluster (dependency: logged by the harness' cluster client)
+\* The remote cluster (abstract): its origins in the order the cluster client tries them, each with a disposition
+\* towards an upload -- "ok" (stores the blob), "fail" (answers start, patch or commit with a non-retryable status such
+\* as 500 / 400 / 403 / 404, or omits the Location header), "retry" (a retryable status: 429 / 502 / 503 / 504) or
+\* "net" (drops the connection).  origin/blobclient's cluster client moves on to the next origin after "retry" and
+\* "net" only; the upload reaches the remote cluster iff the first origin that is neither is "ok".
+Decisive(s) == {i \in 1..Len(s) : s[i] \notin {"retry", "net"}}
+RemoteOK(s) == Decisive(s) # {} /\ s[CHOOSE i \in Decisive(s) : \A j \in Decisive(s) : i <= j] = "ok"
+\* replicateToRemote: the blob is streamed to the remote cluster (dependency: logged by the harness around the real
+\* cluster client).  200 exactly if the remote cluster holds the blob afterwards; every failure is a 500.
 RemoteGone(q) ==      \* the blob was deleted between the handler's stat and its open
   /\ q.pc = "remote" /\ ~Cached(q.node, q.d) /\ UNCHANGED <<env, nrid, acked>> /\ Only(q, Done(q, 500))
 Remote(q) ==
   /\ q.pc = "remote" /\ Cached(q.node, q.d) /\ UNCHANGED <<node, nrid, acked>>
-  /\ IF env.rdown THEN reqs' = (reqs \ {q}) \cup {Done(q, 500)} /\ UNCHANGED <<env, fdata>>
+  /\ IF ~RemoteOK(env.rhosts) THEN reqs' = (reqs \ {q}) \cup {Done(q, 500)} /\ UNCHANGED <<env, fdata>>
      ELSE /\ reqs' = (reqs \ {q}) \cup {Done(q, 200)}
           /\ env' = [env EXCEPT !.remote = @ \cup {q.d}]
           /\ UNCHANGED fdata
@@ -386,7 +394,7 @@ Reply(q) == /\ q.src = "client" /\ q.pc = "done"
 \* environment
 SetUp(n, b)     == env' = [env EXCEPT !.up[n] = b] /\ UNCHANGED <<node, fdata, reqs, nrid, acked>>
 SetBDown(b)     == env' = [env EXCEPT !.bdown = b] /\ UNCHANGED <<node, fdata, reqs, nrid, acked>>
-SetRDown(b)     == env' = [env EXCEPT !.rdown = b] /\ UNCHANGED <<node, fdata, reqs, nrid, acked>>
+SetRHosts(s)    == env' = [env EXCEPT !.rhosts = s] /\ UNCHANGED <<node, fdata, reqs, nrid, acked>>
 SetWbFail(s)    == env' = [env EXCEPT !.wbfail = s] /\ UNCHANGED <<node, fdata, reqs, nrid, acked>>
 SetBackend(s)   == env' = [env EXCEPT !.backend = s] /\ UNCHANGED <<node, fdata, reqs, nrid, acked>>
 SetRing(d, seq) == env' = [env EXCEPT !.ring[d] = seq] /\ UNCHANGED <<node, fdata, reqs, nrid, acked>>
@@ -458,4 +466,11 @@ RemovalOnlyByDeleteA ==
            \E q \in reqs : q.node = n /\ q \notin reqs' /\ ((q.op = "delete" /\ q.d = d) \/ q.op = "forcecleanup")
      /\ (Cached(n, d) /\ node'[n].cache[d] # "none") => node'[n].cache[d] = node[n].cache[d]
 RemovalOnlyByDelete == [][RemovalOnlyByDeleteA]_vars
+\* A6  replicate-to-remote answers 200 only if the remote cluster really holds the blob, and the remote cluster gains
+\*     blobs only that way
+ReplicateTruthfulA ==
+  /\ \A q \in reqs : (q.op = "replicate" /\ q.pc # "done") =>
+        \A q2 \in reqs' : (q2.rid = q.rid /\ q2.pc = "done" /\ q2.code = 200) => q.d \in env'.remote
+  /\ \A d \in env'.remote \ env.remote : \E q \in reqs : q.op = "replicate" /\ q.d = d /\ q.pc = "remote" /\ RemoteOK(env.rhosts)
+ReplicateTruthful == [][ReplicateTruthfulA]_vars
 =============================================================================
